@@ -14,7 +14,7 @@ import os
 from vt.core import Part, pmap, rotate, HarnessBroken
 from vt.scan import fake                           # installs the stub C module
 from vt.scan import run as scanrun
-from vt.scan import c12_gen, c12_oracle
+from vt.scan import c12_gen, c12_oracle, c12_conf
 
 LEVEL = 'model_checking'
 
@@ -175,6 +175,9 @@ def run(ctx):
                     'chain_intermediates_max': 4 if tier == 'thorough' else 3,
                     'property_flag_words': '0..255 x {0, 1<<30, 1<<31, 3<<30}',
                     'signal_flag_words': '0..511 x {0, 1<<17}', 'signal_params_max': 3 if tier == 'thorough' else 2})
+    # conformance of the dumper model with the real gdump.c (real GTypes, real g_irepository_dump)
+    if not only or 'conf' in only.split(','):
+        conformance(ctx)
     # canonical minimal inputs for findings that many scenarios would otherwise each report under their own key
     for key, scn in canonical_probes():
         r = check_case(scn)
@@ -191,7 +194,8 @@ def run(ctx):
         'the C lexer/parser is replaced by symbol trees (vt/scan/fake.py); the dump is injected by overriding '
         'GDumpParser._execute_binary_get_tree, no binary is compiled or run',
         'the dump text is produced by a re-implementation of gdump.c (vt/scan/c12_gdump.py) over a miniature GType '
-        'registry; it is part of the trusted base',
+        'registry; the conformance part compares it with the real gdump.c on four registries of genuine GTypes '
+        '(system GLib 2.74); symbol lookup in that driver goes through a local g_module_symbol (no -rdynamic)',
         'dependency namespaces are the miniature GLib/GObject/Gio GIRs in deps/',
         'UNSPECIFIED (executed, not judged): property/signal types naming a hidden type; when="must-collect" '
         '(not a run phase, not allowed by gir-1.2.rnc); pointer types without structure and boxed types whose name is '
@@ -209,7 +213,35 @@ def run(ctx):
         raise HarnessBroken('oracle answered MUST on implausibly few facts')
 
 
+def conformance(ctx):
+    n = 0
+    for name, _ in c12_conf.REGISTRIES:
+        r = c12_conf.run_registry(name)
+        n += r['items']
+        ctx.add(evaluations=1, states=1, traces_validated_against_impl=1, transitions=r['items'],
+                conformance_elements=r['items'], distinct_nontrivial=1)
+        ctx.outcome(('conf', name, r['items'], len(r['problems'])))
+        for path, real, model in r['problems'][:3]:
+            ctx.violation('gdump-conformance:%s:%s' % (name, path),
+                          'real gdump.c vs dumper model at %s: gdump.c printed %r, model %r' % (path, real, model),
+                          {'conformance': name, 'path': path, 'real': real, 'model': model})
+    if n < 500:
+        raise HarnessBroken('conformance part compared implausibly few elements (%d)' % n)
+    ctx.set(conformance='registries %s registered as genuine GTypes by vt/c/drv_gdump.c and dumped by the real '
+                        'g_irepository_dump(); %d XML elements compared with the model' %
+                        ([x for x, _ in c12_conf.REGISTRIES], n))
+
+
 def replay(ctx, case):
+    if 'conformance' in case:
+        r = c12_conf.run_registry(case['conformance'])
+        print('--- real gdump.c')
+        print(r['real'] if len(r['real']) < 20000 else r['real'][:20000] + '...')
+        print('--- model (vt/scan/c12_gdump.py)')
+        print(r['model'] if len(r['model']) < 20000 else r['model'][:20000] + '...')
+        for p in r['problems'][:40]:
+            print('MISMATCH %s: gdump.c %r, model %r' % p)
+        return not r['problems']
     scn = case['scenario']
     decls = c12_oracle.build_decls(scn['decls'])
     print('family %s params %r' % (case.get('family'), case.get('params')))
